@@ -66,6 +66,8 @@ type rop struct {
 type outcome struct {
 	Kind   string `json:"kind"` // status | statuscancel | statusexpired (response in, then the context ends) | err | wrapcancel | ctxcancel | deadline (error only) | expired (context past its deadline)
 	Status int    `json:"status,omitempty"`
+	// cookies the response sets (Path=/): stored in the client's jar, sent with later attempts
+	SetCookie [][2]string `json:"setcookie,omitempty"`
 }
 
 type shape struct {
@@ -140,7 +142,8 @@ type observation struct {
 	RespNil    bool
 	Panicked   string
 	PanicStack string
-	ErrVsResp  bool // resp.Err == returned err
+	ErrVsResp  bool        // resp.Err == returned err
+	Jar0       [][2]string // what the client's cookie jar held when the request was sent (groups)
 }
 
 func errCode(err error) int {
@@ -276,8 +279,7 @@ func (rs *runState) roundTrip(q *http.Request) (*http.Response, error) {
 	}
 	switch oc.Kind {
 	case "status":
-		return &http.Response{StatusCode: oc.Status, Status: fmt.Sprintf("%d X", oc.Status), Proto: "HTTP/1.1", ProtoMajor: 1, ProtoMinor: 1,
-			Header: http.Header{"Content-Type": {"text/plain"}}, Body: io.NopCloser(strings.NewReader("ok")), ContentLength: 2, Request: q}, nil
+		return statusResponse(oc, q), nil
 	case "statuscancel", "statusexpired":
 		// the response arrives complete and without error; the request's context ends
 		// before the loop decides about a retry
@@ -286,8 +288,7 @@ func (rs *runState) roundTrip(q *http.Request) (*http.Response, error) {
 		} else {
 			rs.ctx.end(context.DeadlineExceeded)
 		}
-		return &http.Response{StatusCode: oc.Status, Status: fmt.Sprintf("%d X", oc.Status), Proto: "HTTP/1.1", ProtoMajor: 1, ProtoMinor: 1,
-			Header: http.Header{"Content-Type": {"text/plain"}}, Body: io.NopCloser(strings.NewReader("ok")), ContentLength: 2, Request: q}, nil
+		return statusResponse(oc, q), nil
 	case "err":
 		return nil, errors.New("E1! transport failure")
 	case "wrapcancel":
@@ -838,13 +839,34 @@ func oracle(r *hk.Run, p *program, o *observation) {
 		}
 	}
 	// every attempt sends the same request
+	// cookies: the caller's cookies first, the same on every attempt, then what the client's
+	// cookie jar holds (the cookies earlier responses set - server-driven state, not part of
+	// "the same request")
+	jars, _ := p.jarsBefore(o.Jar0, n)
+	callerLen := len(o.Wires[0].Cookies) - len(jars[0])
+	if callerLen < 0 || fmt.Sprint(o.Wires[0].Cookies[callerLen:]) != fmt.Sprint(jars[0]) {
+		fail("cookies:jar", "first attempt does not carry the jar's cookies after the caller's", o.Wires[0].Cookies, jars[0])
+	} else {
+		caller := o.Wires[0].Cookies[:callerLen]
+		for k := 1; k < n; k++ {
+			want := append(append([][2]string{}, caller...), jars[k]...)
+			if fmt.Sprint(o.Wires[k].Cookies) != fmt.Sprint(want) {
+				sg := "cookies:jar"
+				if len(o.Wires[k].Cookies) < callerLen || fmt.Sprint(o.Wires[k].Cookies[:callerLen]) != fmt.Sprint(caller) {
+					sg = "identical:cookies"
+				}
+				fail(sg, fmt.Sprintf("attempt %d does not carry the caller's cookies followed by the cookies set by earlier responses", k), o.Wires[k].Cookies, want)
+				break
+			}
+		}
+	}
 	if !p.mutatingHook(e) {
-		first := canonWire(o.Wires[0], nil)
+		first := canonWire(stripCookies(o.Wires[0]), nil)
 		mask := p.unreplayedUploads()
 		for k := 1; k < n; k++ {
-			if ck := canonWire(o.Wires[k], nil); ck != first {
+			if ck := canonWire(stripCookies(o.Wires[k]), nil); ck != first {
 				sg := "identical:" + diffField(o.Wires[0], o.Wires[k])
-				if len(mask) > 0 && canonWireNoLen(o.Wires[k], mask) == canonWireNoLen(o.Wires[0], mask) {
+				if len(mask) > 0 && canonWireNoLen(stripCookies(o.Wires[k]), mask) == canonWireNoLen(stripCookies(o.Wires[0]), mask) {
 					// the only difference is in file parts fed from the caller's own shared plain reader
 					r.Count("accepted.caller-reader-drained")
 					continue
@@ -1039,4 +1061,73 @@ func (sh *shape) effectiveContentType() string {
 		}
 	}
 	return ""
+}
+
+// statusResponse: the scripted answer, with the cookies it sets.
+func statusResponse(oc outcome, q *http.Request) *http.Response {
+	h := http.Header{"Content-Type": {"text/plain"}}
+	for _, c := range oc.SetCookie {
+		h.Add("Set-Cookie", (&http.Cookie{Name: c[0], Value: c[1], Path: "/"}).String())
+	}
+	return &http.Response{StatusCode: oc.Status, Status: fmt.Sprintf("%d X", oc.Status), Proto: "HTTP/1.1", ProtoMajor: 1, ProtoMinor: 1,
+		Header: h, Body: io.NopCloser(strings.NewReader("ok")), ContentLength: 2, Request: q}
+}
+
+// jarSet: net/http/cookiejar for cookies of one host with Path=/: same name replaces in place,
+// a new name is appended.
+func jarSet(j [][2]string, cs [][2]string) [][2]string {
+	out := append([][2]string{}, j...)
+	for _, c := range cs {
+		found := false
+		for i := range out {
+			if out[i][0] == c[0] {
+				out[i][1], found = c[1], true
+				break
+			}
+		}
+		if !found {
+			out = append(out, c)
+		}
+	}
+	return out
+}
+
+func (oc outcome) sets() [][2]string {
+	switch oc.Kind {
+	case "status", "statuscancel", "statusexpired":
+		return oc.SetCookie
+	}
+	return nil
+}
+
+// jarsBefore: what the jar holds before each of the first n attempts, and after them.
+func (p *program) jarsBefore(jar0 [][2]string, n int) (before [][][2]string, after [][2]string) {
+	j := append([][2]string{}, jar0...)
+	for k := 0; k < n; k++ {
+		before = append(before, j)
+		if k < len(p.Script) {
+			j = jarSet(j, p.Script[k].sets())
+		}
+	}
+	return before, j
+}
+
+func (p *program) setsCookies() bool {
+	for _, oc := range p.Script {
+		if len(oc.sets()) > 0 {
+			return true
+		}
+	}
+	return false
+}
+
+func stripCookies(w wireObs) wireObs {
+	h := map[string][]string{}
+	for k, vs := range w.Header {
+		if k != "Cookie" {
+			h[k] = vs
+		}
+	}
+	w.Header, w.Cookies = h, nil
+	return w
 }
